@@ -540,7 +540,12 @@ func genC12(kind string) func(r *core.Rng) any {
 					x.Res = core.PickF(r, []float64{0.5, 1, 2, r.Range(0.3, 3)})
 					x.Stroke, x.Fill = nil, nil
 				}
-				if kind == "gradients" && x.Fill != nil {
+				if kind == "gradients" && x.Fill != nil && len(c.Draws) == 0 && r.Chance(0.4) {
+					// the first draw keeps a plain translucent fill: the gradients after it must not inherit
+					// its opacity
+					x.Fill = []int{r.Intn(256), r.Intn(256), r.Intn(256), core.PickI(r, []int{128, 64})}
+					x.Grad, x.Stroke = false, nil
+				} else if kind == "gradients" && x.Fill != nil {
 					// linear gradients of 2-5 stops; the first may lie after 0 and the last before 1
 					x.Grad = true
 					n := r.IntRange(2, 5)
@@ -1665,6 +1670,12 @@ func c12Check(ci any, o *core.Obs) {
 				ba = append(ba, pr.axis)
 				br = append(br, pr.ramp)
 				brErr = append(brErr, pr.rampErr)
+				// the drawing's gradients are opaque: the opacity in force when the PDF paints one must be 1
+				// (it is part of the graphics state and may be left over from an earlier translucent fill)
+				if bk.name == "pdf" && math.Abs(pr.col[3]-1) > 1e-3 {
+					o.Fail("pdf-gradient-opacity", "gradient %d is painted with the non-stroking opacity %.4g in the pdf output, the drawing's gradient is opaque; %s", len(br)-1, pr.col[3], c12Str(c))
+					return
+				}
 			}
 		}
 		o.Decided(1)
